@@ -20,7 +20,7 @@ CHECKS = {
             'sequential consistency; mock devices; small rings swapped in without source changes; bounds per configuration in the evidence', E2, '4/C04'),
     'C05': ('vsched', 'Shape sweep (8 sample types x widths x heights: all residues of the image size mod 8) on rings that wrap, with a client that consumes regions partially: every packet handed to storage and every region mapped by the client is walked and must be a chain of whole, 8-byte aligned frames with bytes_of_frame = header + image rounded up to 8 (computed independently) and the camera\'s shape; all non-preemptive schedules per shape, bounded deviations on selected shapes.',
             'as C04', E2, '4/C05'),
-    'C06': ('vsched', 'Client programs (map/unmap all, first frame only, nothing, hold, hold across abort) x acquisition sequences ended by stop or abort x monitoring from the first or a later acquisition, all schedules within the bound: consecutive frame ids with this acquisition\'s pixels, nothing delivered after stop/abort returned, map/unmap always succeed, storage unaffected.',
+    'C06': ('vsched', 'Client programs (map/unmap all, first frame only, nothing, hold, hold across abort) x acquisition sequences ended by stop or abort x monitoring from the first or a later acquisition, all schedules within the bound: consecutive frame ids with this acquisition\'s pixels, nothing delivered after stop/abort returned, map/unmap always succeed, a held region does not change until it is handed back (or the end call returns), storage unaffected.',
             'as C04; a client that stops draining and then calls stop is a recorded known finding (c06u)', E2, '4/C06'),
     'C07': ('vsched', 'A controller thread whose only action is abort (or stop) is runnable from the instant start returns, so bounded exploration enumerates every point of the schedule as the abort instant; situations: infinite/finite acquisition, camera waiting for a trigger, ring full with the source asleep, averaging, client holding a region, concurrent aborts; oracle: returns (no deadlock/livelock), workers joined, devices stopped, Armed, storage holds a gap-free prefix, follow-up acquisition complete.',
             'as C04', E2, '4/C07'),
@@ -32,15 +32,15 @@ CHECKS = {
             'as C04; ring memory pre-filled with a non-zero pattern (content outside committed data is unspecified)', E2, '4/C10'),
     'C11': ('seqx', 'All HAL call sequences up to depth 5 (quick) / 6 (thorough) on one camera and one storage x every driver answer (Ok/Err, every DeviceState) at every driver entry, on the real camera.c/storage.c/driver.c with a recording page-protected driver: the driver sees only legal calls, exactly one close, nothing afterwards; the HAL-reported state follows from the driver\'s last answer.',
             'single-threaded; answer menu per driver entry as listed in the evidence', E3, '4/C11'),
-    'C12': ('seqx', 'All patterns up to length 3 (quick: on three installations; thorough: on all 16) over a 19-symbol regex alphabet, malformed patterns that are hostile printf formats, indices up to 2^32-1, device-manager life-cycle sequences with two managers, plus whole-name/prefix/suffix/case/NUL variants of every enumerated name x all kinds x all indices x all 16 subsets of driver libraries, through the real loader and device manager: results agree with an independent matcher over the enumeration; malformed input gives an error status, never an exception or crash.',
+    'C12': ('seqx', 'All patterns up to length 3 (quick: on three installations; thorough: on all 16) over a 19-symbol regex alphabet, malformed patterns that are hostile printf formats, every sequence of three selections (with repetition) over a menu of well-formed, non-matching and malformed patterns on one manager, indices up to 2^32-1, device-manager life-cycle sequences with two managers, plus whole-name/prefix/suffix/case/NUL variants of every enumerated name x all kinds x all indices x all 16 subsets of driver libraries, through the real loader and device manager: results agree with an independent matcher over the enumeration; malformed input gives an error status, never an exception or crash.',
             'patterns longer than the bound are not enumerated; strong oracle only inside the ECMAScript subset of the reference matcher', E3, '4/C12'),
-    'C13': ('seqx', 'All call sequences up to depth 4 (quick) / 5 (thorough) over init/set_uri/set_external_metadata/set_access_key_and_secret/set_dimension/set_enable_multiscale/copy/destroy on three objects with a small string/dimension alphabet (NULL, empty, unterminated, long), against a value model, with an allocation ledger (interposed malloc family) and pointer-independence checks; ASan build of the same enumeration in thorough.',
+    'C13': ('seqx', 'All call sequences up to depth 4 (quick) / 5 (thorough) over init/set_uri/set_external_metadata/set_access_key_and_secret/set_dimension/set_enable_multiscale/copy/destroy on three objects with a small string/dimension alphabet (NULL, empty, unterminated, long), against a value model, with an allocation ledger (interposed malloc family) and pointer-independence checks; for histories of up to 3 calls the last call also with each of its allocation requests failing in turn (well-formed strings, no sharing, no double release, no leak); ASan build of the same enumeration in thorough.',
             'string alphabet and depth as listed', E3, '4/C13'),
-    'C14': ('seqx', 'Raw device through the real HAL and platform.c over an in-memory file system (interposed open/flock/pwrite/close): all histories of 1-3 set/start/append*/stop cycles x packet groupings of 1-3 frames x URI spellings x every placement of up to 2 (quick) / 3 (thorough) short/zero writes, triple stalls, a second device pointed at the file being recorded, a live set that is rejected: file content == concatenation of that cycle\'s packets.',
+    'C14': ('seqx', 'Raw device through the real HAL and platform.c over an in-memory file system (interposed open/flock/pwrite/close): all histories of 1-3 set/start/append*/stop cycles x packet groupings of 1-3 frames x URI spellings x every placement of up to 2 (quick) / 3 (thorough) short/zero writes, triple stalls, an interrupted write (EINTR) at every pwrite index, a second device pointed at the file being recorded, a live set that is rejected: file content == concatenation of that cycle\'s packets.',
             'interposed libc calls model the kernel: short writes, zero writes; real raw.c, platform.c file_write', E3, '4/C14'),
     'C15': ('seqx', 'tiff and tiff-json devices over the in-memory file system: shapes x sample types x frame counts x packet groupings x metadata x pixel scales x URI spellings x 1-2 start/stop cycles, packets of differently sized frames, short-write plans, one failing write at every index (frames appended before it still round-trip), a second device on the same target; every produced file is parsed by an independent BigTIFF reader: N directories ending in 0, offsets in range, structures disjoint, per-directory tags and strips equal the frames, descriptions parse as JSON with the frame\'s ids/timestamps, metadata placement.',
             'independent reader and JSON parser are the trusted base', E3, '4/C15'),
-    'C16': ('seqx', 'Every storage kind x life-cycle histories up to depth 5 x failure of the k-th open/flock/pwrite (transient or persistent; EIO, ENOSPC, EINTR, EAGAIN, stalls), with a descriptor ledger (lowest-free numbering, foreign descriptors in between): no crash, no unbounded recursion, no hang; a failing write leaves the running state by the end of that append; only owned descriptors are written or closed, each closed exactly once.',
+    'C16': ('seqx', 'Every storage kind x life-cycle histories up to depth 5 x failure of the k-th open/flock/pwrite (transient or persistent; EIO, ENOSPC, EINTR, EAGAIN, stalls), failing close calls, descriptor 0 free when the device creates its files, with a descriptor ledger (lowest-free numbering, foreign descriptors in between): no crash, no unbounded recursion, no hang; a failing write leaves the running state by the end of that append; only owned descriptors are written or closed, each closed exactly once.',
             'fake kernel in the harness; stack guard for recursion', E3, '4/C16'),
     'C17': ('seqx', 'Simulated cameras under ASan: kind x binning x sample type x boundary shapes x offsets x set/start/get_frame/stop/set sequences (pairs of configurations), allocation failures inside set: reported shape/strides/readback, bytes written to the caller\'s buffer, no out-of-bounds access; plus the re-configure-while-running race under vsched.',
             'boundary values only for the 1..8192 axes; AVX2 and plain bin2', E3 + ' + ' + E2, '4/C17'),
